@@ -191,6 +191,10 @@ def run_property(prop, tier, seed):
     t0 = time.time()
     fp = common.repo_fingerprint()
     harnesses = cfg["select"](tier, seed)
+    only = os.environ.get("VERIF_ONLY")  # debugging aid: restrict to harnesses matching a regex
+    if only:
+        import re
+        harnesses = [h for h in harnesses if re.search(only, h)]
     witnesses = cfg.get("witnesses", [])
     jobs = int(os.environ.get("VERIF_JOBS", "16"))
     results, build_ok, log = kani.run(harnesses + witnesses, jobs=jobs, harness_timeout=cfg.get("timeout", 900))
